@@ -174,6 +174,41 @@ def gen_empty_selection_program(rng):
     return prog
 
 
+def gen_mixed_concat_program(rng):
+    """arrays of DIFFERENT integer element types (a narrow one, an int64 one whose cells do not fit the narrow one), possibly
+    derived, concatenated in either order; then everything that reads the concatenation. The rows of the result are the rows of
+    the operands whatever their element types (numpy promotes)."""
+    narrow = rng.choice(["int8", "int16", "int32", "uint8", "uint16", "bool"])
+    la = gens.shape_random(rng, 4, 3); lb = gens.shape_random(rng, 4, 3)
+    if sum(lb) == 0:
+        lb = [2, 0, 1]
+    if sum(la) == 0:
+        la = [1, 2]
+    cnt = [0]
+    def small():
+        cnt[0] += 1
+        return cnt[0] % 2 if narrow == "bool" else (cnt[0] * 7) % 100
+    wide = [300, -70000, 2 ** 40 + 3, -129, 65536, 2 ** 31, -2 ** 33 - 1]
+    prog = [{"s": "new", "rows": [[small() for _ in range(l)] for l in la], "dt": narrow},
+            {"s": "new", "rows": [[rng.choice(wide) for _ in range(l)] for l in lb]}]
+    a, b, nxt = 0, 1, 2
+    if rng.random() < 0.5:
+        prog.append({"s": "select", "x": 0, "idx": {"r": {"t": "slice", "a": None, "b": None, "k": rng.choice([None, -1])}, "c": None}})
+        a = nxt; nxt += 1
+    if rng.random() < 0.3:
+        prog.append({"s": "select", "x": 1, "idx": {"r": {"t": "slice", "a": None, "b": None, "k": rng.choice([None, -1])}, "c": None}})
+        b = nxt; nxt += 1
+    x, y = (a, b) if rng.random() < 0.7 else (b, a)
+    prog.append({"s": "concat", "x": x, "y": y})
+    c = nxt; nxt += 1
+    tail = [{"s": "read", "x": c}, {"s": "read_sum", "x": c}, {"s": "read_meta", "x": c}]
+    if rng.random() < 0.5:
+        tail.append({"s": "select", "x": c, "idx": {"r": {"t": "slice", "a": None, "b": None, "k": -1}, "c": None}})
+        tail.append({"s": "read", "x": nxt})
+    rng.shuffle(tail[:3])
+    return prog + tail + [{"s": "read", "x": 0}, {"s": "read", "x": 1}]
+
+
 class RefStore:
     """reference semantics: every variable denotes a cell holding plain rows; aliases share the cell"""
     def __init__(self):
@@ -282,8 +317,8 @@ def run_real(prog, extra_reads=None, variant=0):
     xs = []
     bases = {}       # variable -> function writing flat cell k through the numpy array the variable was constructed over
     trace = []
-    def construct(rows, kind):
-        data = np.array([v for r in rows for v in r], dtype=np.int64)
+    def construct(rows, kind, dt=None):
+        data = np.array([v for r in rows for v in r], dtype=np.dtype(dt or "int64"))
         n = len(data)
         if kind == "stride2":
             base = np.full(2 * n + 1, -77, dtype=np.int64); base[:2 * n:2] = data
@@ -342,7 +377,7 @@ def run_real(prog, extra_reads=None, variant=0):
         s = st["s"]
         try:
             if s == "new":
-                ra, poke = construct(st["rows"], st.get("base", "plain"))
+                ra, poke = construct(st["rows"], st.get("base", "plain"), st.get("dt"))
                 bases[len(xs)] = poke
                 xs.append(ra); trace.append(True); continue
             x = xs[st["x"]] if st["x"] < len(xs) else None
